@@ -1,8 +1,10 @@
 ---------------------------- MODULE Trace_FailMsg ----------------------------
 (* Validation of recorded failure messages (C14, message part): every log line = one failure object built by the real
-   code for operands e, a (symbol codes; enull/anull = the operand was a NULL pointer) with
+   code for operands e, a (runs <<symbol code, count>>; enull/anull = the operand was a NULL pointer; a = no runs for the
+   kinds with one operand) with
      haspos/pos - the "difference starts at position N" the message prints (pos = 0 when absent)
-     has_e/has_a - the message shows the operand verbatim between < and > (logged for printable operands, else true)
+     f       - the fields of the message, each as runs: the pieces between < and > (bineq: a piece that is a hex dump is
+               logged as the bytes it denotes; exception: the text after the first ": "; unsupported: the pieces between quotes)
      raw     - the message contains an operand byte that is not printable, unescaped (0x01)
    bits-equal kind (op bitseq): w = operand width in bytes, e/a/m = the 8 bytes of expected, actual and mask (most significant
    first), has_e/has_a - the message has an "expected <..>" / "but was <..>" field, eb/ab - the symbols of the two fields with
@@ -14,28 +16,34 @@ Tr == ndJsonDeserialize(IOEnv.TRACE)
 E == Tr[l]
 Is(op) == l <= Len(Tr) /\ Tr[l].op = op /\ l' = l + 1
 
-RowOK == LET v == Verdict(E.op, E.e, E.a, E.enull, E.anull) IN
-         /\ ~v.free => (E.haspos = v.haspos /\ (v.haspos => E.pos = v.pos))
-         /\ (~E.enull /\ AllPrintable(E.e)) => E.has_e
-         /\ (~E.anull /\ AllPrintable(E.a)) => E.has_a
-         /\ ~E.raw
+StrKinds == {"streq", "nocase", "checkeq", "bineq", "equals", "contains", "exception", "unsupported"}
+PosKinds == {"streq", "nocase", "checkeq", "bineq"}
+Fields(ev) == [i \in 1..Len(ev.f) |-> Expand(ev.f[i])]
+RowOK == LET v == Verdict(E.op, Expand(E.e), Expand(E.a), E.enull, E.anull) IN
          /\ E.safe          \* building the message was survived (no sanitizer report, no signal, no deadline)
+         /\ (E.op \in PosKinds /\ ~v.free) => (E.haspos = v.haspos /\ (v.haspos => E.pos = v.pos))
+         /\ ShowsBoth(E.op, E.e, E.a, E.enull, E.anull, Fields(E))
+         /\ ~E.raw
 BitsOK == /\ E.safe /\ E.has_e /\ E.has_a
           /\ E.w \in 1..8 /\ Len(E.e) = 8 /\ Len(E.a) = 8 /\ Len(E.m) = 8
           /\ ShowsOK(E.eb, E.e, E.m, E.w)
           /\ ShowsOK(E.ab, E.a, E.m, E.w)
 TInit == l = 1 /\ u = 0
-TNext == \/ /\ \/ Is("streq") \/ Is("nocase") \/ Is("checkeq") \/ Is("bineq")
+TNext == \/ /\ l <= Len(Tr) /\ Tr[l].op \in StrKinds /\ l' = l + 1
             /\ RowOK /\ UNCHANGED u
          \/ Is("bitseq") /\ BitsOK /\ UNCHANGED u
 TReset == Is("reset") /\ UNCHANGED u
 TSpec == TInit /\ [][TNext \/ TReset]_<<l, u>>
 Accepted == TLCGet("stats").diameter - 1 = Len(Tr)
 
-PNext == (Is("streq") \/ Is("nocase") \/ Is("checkeq") \/ Is("bineq") \/ Is("bitseq")) /\ UNCHANGED u
+PNext == l <= Len(Tr) /\ Tr[l].op \in (StrKinds \cup {"bitseq"}) /\ l' = l + 1 /\ UNCHANGED u
 PSpec == TInit /\ [][PNext \/ TReset]_<<l, u>>
+Must(ev) == IF ev.op = "bitseq" THEN BitsVerdict(ev.e, ev.a, ev.m, ev.w)
+            ELSE LET F == Fields(ev)
+                     Exp == IF ev.op \in OneOperand THEN <<ShownForm(ev.op, ev.e)>> ELSE <<ShownForm(ev.op, ev.e), ShownForm(ev.op, ev.a)>>
+                 IN [position |-> IF ev.op \in PosKinds THEN Verdict(ev.op, Expand(ev.e), Expand(ev.a), ev.enull, ev.anull) ELSE [haspos |-> FALSE, pos |-> 0, free |-> TRUE],
+                     operands_must_be_fields |-> [i \in 1..Len(Exp) |-> [shown_length |-> Len(Exp[i]), is_a_field |-> \E j \in 1..Len(F) : F[j] = Exp[i]]],
+                     field_lengths_observed |-> [j \in 1..Len(F) |-> Len(F[j])]]
 Predict == (l > 1 /\ l - 1 >= atoi(IOEnv.FROM_LINE_N) /\ Tr[l - 1].op # "reset") =>
-              PrintT(<<"BEH", ToJson([line |-> l - 1, must |-> IF Tr[l - 1].op = "bitseq"
-                                                                 THEN BitsVerdict(Tr[l - 1].e, Tr[l - 1].a, Tr[l - 1].m, Tr[l - 1].w)
-                                                                 ELSE Verdict(Tr[l - 1].op, Tr[l - 1].e, Tr[l - 1].a, Tr[l - 1].enull, Tr[l - 1].anull)])>>)
+              PrintT(<<"BEH", ToJson([line |-> l - 1, must |-> Must(Tr[l - 1])])>>)
 =============================================================================
